@@ -84,6 +84,11 @@ func baseDoFile(L *LState) int {
 func baseError(L *LState) int {
 	obj := L.CheckAny(1)
 	level := L.OptInt(2, 1)
+	if level > 0 {
+		// LState.Error counts levels from the function that calls it; error() is that function here,
+		// so Lua's level 1 (the function that called error) is one further up
+		level++
+	}
 	L.Error(obj, level)
 	return 0
 }
